@@ -25,6 +25,41 @@ class MachineryError(Exception):
     pass
 
 
+class DoesNotReturn(Exception):
+    """A call into the library did not return (Returns.tla: every call returns): the driver named the input in its heartbeat
+    and then made no progress for RETURN_CPU_S seconds of processor time (or RETURN_IDLE_S seconds without using any)."""
+
+    def __init__(self, script, item, why):
+        Exception.__init__(self, "%s: %s" % (script, why))
+        self.script, self.item, self.why = script, item, why
+        self.list_key, self.job_rest = None, None
+
+
+RETURN_CPU_S = float(os.environ.get("VERIF_RETURN_CPU_S", "300"))      # processor seconds on one input (ordinary inputs: milliseconds)
+RETURN_IDLE_S = float(os.environ.get("VERIF_RETURN_IDLE_S", "1200"))   # seconds on one input without using the processor (blocked)
+_CLK = os.sysconf("SC_CLK_TCK")
+
+
+def _group_cpu():
+    """processor seconds used so far by the live processes of each process group (drivers start one group per job)"""
+    acc = {}
+    for d in os.listdir("/proc"):
+        if not d.isdigit():
+            continue
+        try:
+            with open("/proc/%s/stat" % d) as fh:
+                st = fh.read()
+        except (IOError, OSError):
+            continue
+        f = st[st.rindex(")") + 2:].split()
+        try:
+            pgrp, ut, stt, cut, cst = int(f[2]), int(f[11]), int(f[12]), int(f[13]), int(f[14])
+        except (ValueError, IndexError):
+            continue
+        acc[pgrp] = acc.get(pgrp, 0.0) + (ut + stt + cut + cst) / float(_CLK)
+    return acc
+
+
 def scratch_dir(tag):
     base = os.path.join(VERIF, ".work")
     os.makedirs(base, exist_ok=True)
@@ -66,6 +101,9 @@ def repo_env(extra=None):
 PYFLAGS = [["-S"], ["-bb"], ["-W", "error"], ["-X", "dev"], ["-O"], ["-OO"], ["-u"], ["-X", "utf8"], ["-s"], ["-W", "error", "-bb", "-X", "dev"], ["-q"], ["-X", "importtime"][:0] + ["-R"]]
 
 
+DRIVER_STATS = {}
+
+
 def run_driver(script, jobs, out_dir, py=None, env=None, timeout=3600, name="drv"):
     """Run DRIVERS/script once per job (a JSON-serialisable dict passed as argv[1]) in parallel.
     Each job writes its own output file(s); returns list of (job, returncode, stderr_tail)."""
@@ -74,6 +112,7 @@ def run_driver(script, jobs, out_dir, py=None, env=None, timeout=3600, name="drv
     pending = list(enumerate(jobs))
     running = []
     t0 = time.time()
+    watch, last_watch, stats = {}, 0.0, DRIVER_STATS
     while pending or running:
         while pending and len(running) < NCPU:
             k, job = pending.pop(0)
@@ -84,24 +123,73 @@ def run_driver(script, jobs, out_dir, py=None, env=None, timeout=3600, name="drv
             # interpreter options are ambient settings too: every fourth job of a batch runs under one of them (only the
             # repository's default interpreter; the drivers themselves are clean under all of them)
             flags = PYFLAGS[(k // 4) % len(PYFLAGS)] if (k % 4 == 2 and py == REPO_PY and not (env or {}).get("PYTHONOPTIMIZE")) else []
+            hbf = os.path.join(out_dir, "%s.%d.hb" % (name, k))
+            e_ = repo_env(env)
+            e_["VERIF_HB"] = hbf
             p = subprocess.Popen([py, "-B"] + flags + [os.path.join(DRIVERS, script), jobf],
-                                 env=repo_env(env), stdout=subprocess.DEVNULL, stderr=errf,
-                                 cwd=out_dir)
+                                 env=e_, stdout=subprocess.DEVNULL, stderr=errf,
+                                 cwd=out_dir, start_new_session=True)
             running.append((k, job, p, errf))
+            watch[k] = {"tok": None, "cpu0": 0.0, "t0": time.time(), "hbf": hbf}
         time.sleep(0.02)
         still = []
+        cpu = None
+        if time.time() - last_watch > 2.0:
+            last_watch = time.time()
+            cpu = _group_cpu()
         for k, job, p, errf in running:
             rc = p.poll()
             if rc is None:
+                if cpu is not None:
+                    w = watch[k]
+                    try:
+                        with open(w["hbf"], "rb") as fh:
+                            tok = fh.read(3200)
+                    except (IOError, OSError):
+                        tok = b""
+                    used = cpu.get(p.pid, 0.0)
+                    if tok != w["tok"]:
+                        w["tok"], w["cpu0"], w["t0"] = tok, used, time.time()
+                    else:
+                        on_cpu, idle = used - w["cpu0"], time.time() - w["t0"]
+                        stats["max_cpu_on_one_input_s"] = max(stats.get("max_cpu_on_one_input_s", 0.0), round(on_cpu, 1))
+                        why = None
+                        if on_cpu > RETURN_CPU_S:
+                            why = "no progress after %.0f s of processor time on one input" % on_cpu
+                        elif idle > RETURN_IDLE_S and on_cpu < 0.01 * idle:
+                            why = "blocked for %.0f s on one input (%.1f s of processor time)" % (idle, on_cpu)
+                        if why and tok.strip():
+                            for q in running:
+                                try:
+                                    os.killpg(q[2].pid, 9)
+                                except OSError:
+                                    pass
+                            try:
+                                item = json.loads(tok.decode("ascii", "replace").strip() or "{}").get("item")
+                            except ValueError:
+                                item = tok.decode("ascii", "replace").strip()[:2000]
+                            # the heartbeat counts the job's inputs: take the input itself from the job (the heartbeat is cut at 3 000 characters)
+                            ex = DoesNotReturn(script, item, why)
+                            m_ = re.match(r'\{"n": (\d+)', tok.decode("ascii", "replace"))
+                            for lk in ("items", "rows", "cands"):
+                                if m_ and isinstance(job.get(lk), list) and 1 <= int(m_.group(1)) <= len(job[lk]):
+                                    ex.item = job[lk][int(m_.group(1)) - 1]
+                                    ex.list_key = lk
+                                    ex.job_rest = dict((k_, v_) for k_, v_ in job.items() if k_ != lk and len(json.dumps(v_)) < 200000)
+                                    break
+                            raise ex
                 if time.time() - t0 > timeout:
-                    p.kill()
+                    try:
+                        os.killpg(p.pid, 9)
+                    except OSError:
+                        p.kill()
                     raise MachineryError("driver %s timed out" % script)
                 still.append((k, job, p, errf))
             else:
                 errf.seek(0)
                 tail = errf.read()[-2000:]
                 errf.close()
-                for suffix in ("err", "job"):
+                for suffix in ("err", "job", "hb"):
                     try:
                         os.remove(os.path.join(out_dir, "%s.%d.%s" % (name, k, suffix)))
                     except OSError:
